@@ -34,6 +34,9 @@ type c18Scenario struct {
 	// WantCaps: the application has filled in Config.Capabilites (1) and/or Config.Sasl (2) - what is wanted
 	// - whether or not negotiation is enabled: CAP LS is sent only if it is
 	WantCaps int `json:"want_caps,omitempty"`
+	// LateSasl: a SASL mechanism is put into Config() only after Client() returned (where, negotiation being
+	// off, nothing switched it on): negotiation stays as configured
+	LateSasl bool `json:"late_sasl,omitempty"`
 	SSL         bool   `json:"ssl"`
 	Server      string `json:"server"`
 	PingFreqMS  int    `json:"ping_freq_ms"` // -1000, 0, 20, 180000
@@ -66,6 +69,7 @@ func genC18(t *rapid.T) *c18Scenario {
 		Name:       Q(rapid.SampledFrom([]string{"Real Name", "name: with colon", " lead", "x", ":colonfirst", "a  b"}).Draw(t, "name")),
 		CapNeg:     rapid.Bool().Draw(t, "capneg"),
 		WantCaps:   rapid.SampledFrom([]int{0, 0, 1, 2, 3}).Draw(t, "want_caps"),
+		LateSasl:   rapid.IntRange(0, 3).Draw(t, "late_sasl") == 0,
 		SSL:        rapid.IntRange(0, 3).Draw(t, "ssl") == 0,
 		Server:     rapid.SampledFrom(c18Servers).Draw(t, "server"),
 		PingFreqMS: rapid.SampledFrom([]int{-1000, 0, 0, 20, 180000, 180000}).Draw(t, "pingfreq"),
@@ -175,6 +179,9 @@ func runC18(sc *c18Scenario) *Violation {
 			cfg.SSL = sc.SSL
 		}})
 	defer tc.shutdown()
+	if sc.LateSasl {
+		tc.C.Config().Sasl = sasl.NewPlainClient("", "late", "secret")
+	}
 	if sc.LateConfig {
 		// "Changing these after connection will have no effect until the client reconnects" - so
 		// changing them before the first Connect must take effect
